@@ -100,7 +100,7 @@ func checkC13(w *World) {
 			w.check(P, "R13.1", "entry point "+ep.Name, ep.Fn.Pos(), false, fmt.Sprintf("may write %v (no leaf instruction isolated)", describeTags(bad, ep.Fn)))
 		}
 	}
-	w.floor(P, "R13.1", 17)
+	w.floorSites(P, "R13.1", 17)
 	// R13.2: explicit global inventory
 	nG := 0
 	for _, pk := range []string{"exec", "store", "parser", "grammar", ""} {
